@@ -14,10 +14,12 @@ from vmon import env
 def repo_frames(tb):
     """Frames of a traceback that lie in the repository under test."""
     out = []
-    for fs in traceback.extract_tb(tb):
-        fn = os.path.realpath(fs.filename)
+    while tb is not None:
+        code = tb.tb_frame.f_code
+        fn = os.path.realpath(code.co_filename)
         if fn.startswith(os.path.join(env.REPO, "amaranth_soc") + os.sep):
-            out.append(fs)
+            out.append((fn, tb.tb_lineno, getattr(code, "co_qualname", code.co_name)))
+        tb = tb.tb_next
     return out
 
 
@@ -26,12 +28,12 @@ def crash_violation(exc):
     frames = repo_frames(exc.__traceback__)
     if not frames:
         return None
-    last = frames[-1]
-    rel = os.path.relpath(os.path.realpath(last.filename), env.REPO)
+    fn, lineno, qualname = frames[-1]
+    rel = os.path.relpath(fn, env.REPO)
     return {
         "monitor": "crash",
-        "mechanism": f"crash:{type(exc).__name__}:{rel}:{last.name}",
-        "msg": f"{type(exc).__name__}: {str(exc)[:300]} (in {rel}:{last.lineno} {last.name})",
+        "mechanism": f"crash:{type(exc).__name__}:{rel}:{qualname}",
+        "msg": f"{type(exc).__name__}: {str(exc)[:300]} (in {rel}:{lineno} {qualname})",
         "detail": {"traceback": traceback.format_exception(exc)[-12:]},
     }
 
